@@ -288,6 +288,16 @@ func c13Jobs(tier string) []*Job {
 		spo.Peers = nil
 		jobs = append(jobs, job(e2WatchScen("E2-outside-"+amevName(a), 4, 0, true, a, false, 4, spo), per))
 	}
+	// an active validator is switched to watch-only in the middle of a round (the callback flips): silent from then on
+	for _, a := range []int64{-1, 0} {
+		spf := E2Spec{Views: 2, Proposals: "A", Responses: "A", RespPeers: 2, Commits: "A", CVs: 1, CVViews: 1, RecReq: true, WatchFlip: true, MaxDepth: 9, StateCap: cap}
+		if a >= 0 {
+			spf.PreCommits = "A"
+		}
+		sf := e2scen("E2-validator-switched-to-watch-only-mid-round-"+amevName(a), 4, 2, a, spf)
+		sf.Missing, sf.BadTx = map[int][]H{}, map[int][]H{}
+		jobs = append(jobs, job(sf, per))
+	}
 	spd := E2Spec{Views: 1, Proposals: "A", Responses: "A", Commits: "A", RecReq: true, MaxDepth: 10, StateCap: cap, Peers: []int{0, 1, 3}}
 	jobs = append(jobs, job(e2WatchScen("E2-watchflag-x2-dyn", 4, 2, false, -1, true, 5, spd), per))
 	return jobs
